@@ -169,7 +169,7 @@ AllJustified(evs, log) ==
             IF Expect(p.bytes, p.addr) = NoEvent THEN AllJustified(evs, Tail(log))
             ELSE /\ evs[1] = Expect(p.bytes, p.addr)
                  /\ (Mode = "token" => Len(p.bytes) = 3 /\ PidOk(p.bytes[1])
-                                       /\ (evs[1].k = "tok" => evs[1].y = p.addr /\ evs[1].x = PidOf(p.bytes[1])))
+                                       /\ (evs[1].k = "tok" => (FilterByAddress => evs[1].y = p.addr) /\ evs[1].x = PidOf(p.bytes[1])))
                  /\ (Mode = "handshake" => Len(p.bytes) = 1 /\ PidOk(p.bytes[1]))
                  /\ AllJustified(Tail(evs), Tail(log))
 EveryEventJustified == AllJustified(evLog, pktLog)
